@@ -4,6 +4,7 @@ Requests:
   `c17 <topic hex> <op>:<ver>:<off>:<hwm> <body hex> <k> <next body hex> => <res> <next> <deliver>`
       model: the operation of Model/ConnOps.lean on the stream `(frame 1 body).take k` (then EOF); for k = frame length the
       stream continues with the follow-up list-offsets frame.  `next` = outcome of a list-offsets operation afterwards.
+  `c17raw <answer hex> <k> <next body hex> => <res> <next>`   the un-framed sasl token answer ([int32 len][bytes]) cut at k.
   `c2 <topic hex> <A>:<ver>:<off>:<hwm> <bodyA hex> <B>:… <bodyB hex> <k> => <resA> <resB>`   two callers with both requests
       in flight on ONE Conn, the response stream lost after k bytes: nobody may hang (read lock released on every exit).
   `lo <cut timestamp|none> <true first> <true last> <frame len> <k> => <call> <first> <last> <error code>`   one
@@ -23,7 +24,9 @@ of the records sent.
 -/
 import Oracle.ConnCommon
 import KafkaVerif.Model.TransportConnC17
+import KafkaVerif.Gen.ConnLegacy
 import KafkaVerif.Model.ListOffsets
+import KafkaVerif.Model.SplitMerge
 
 namespace KV.OracleC17
 open KV KV.Reader KV.ConnOps KV.OracleConn
@@ -119,6 +122,29 @@ def modelSplitListOffsets (cutTs : Option Int) (first last : Int) : String :=
       | none => "ok - - missing"
     | none => "panic"
 
+/-- strict merges: `parts` parts with `per` entries each, the part whose response was lost fails -/
+def modelStrict (parts per : Nat) (cut : Bool) : String :=
+  let rs : List (Except String (List Nat)) :=
+    (List.range parts).map fun i => if cut && i == 0 then .error "unexpected EOF" else .ok (List.replicate per i)
+  match SplitMerge.mergeStrict rs with
+  | .ok out => s!"ok {out.length}"
+  | .error _ => "err 0"
+
+/-- ListOffsets over partitions 0,1,2 (last offsets 6,7,8), the part of partition `cutP` lost: C19's model -/
+def modelListOffsets3 (cutP : Option Int) : String :=
+  let req : List (String × List (Int × Int)) := [("t", [(0, -1), (1, -1), (2, -1)])]
+  let answer (p : Int) : ListOffsets.Result :=
+    if cutP == some p then .err "unexpected EOF" else .ok ⟨0, [("t", [⟨p, 0, -1, 6 + p, 0⟩])]⟩
+  let r := ListOffsets.clientRequest 0 req
+  match ListOffsets.merge (ListOffsets.split r) [answer 0, answer 1, answer 2] with
+  | .error _ => "err - - -"
+  | .ok resp =>
+    match ListOffsets.clientApply (ListOffsets.clientInit req) resp with
+    | some m =>
+      let show1 (p : Int) := match m.lookup ("t", p) with | some x => s!"{x.last}:{x.error}" | none => "missing"
+      s!"ok {show1 0} {show1 1} {show1 2}"
+    | none => "panic"
+
 def step (line : String) : String :=
   match line.splitOn " => " with
   | [req, impl] =>
@@ -131,6 +157,32 @@ def step (line : String) : String :=
         | none, _ => "bad-op"
         | _, none => "bad-frame: body is not an encoding of the Spec layout"
       | _, _, _, _ => "bad-args"
+    | ["c17s", t, sa, ha, ks, hn] =>
+      -- the broker goes silent after k bytes (no FIN); the Conn's deadline expires: for the model a stream that ends —
+      -- same prediction as a cut; the monitor also refuses `late` (came back long after the deadline) and `hang`
+      match ofHex t, parseInst sa ha, ks.toNat?, ofHex hn with
+      | some topic, some a, some k, some nb =>
+        match modelConn topic a k nb, monitorConn a true impl with
+        | some m, some h => s!"model={m} holds={if h then 1 else 0}"
+        | none, _ => "bad-op"
+        | _, none => "bad-frame: body is not an encoding of the Spec layout"
+      | _, _, _, _ => "bad-args"
+    | ["c17raw", hr, ks, hn] =>
+      match ofHex hr, ks.toNat?, ofHex hn with
+      | some resp, some k, some nb =>
+        -- the un-framed token answer cut after k bytes; then a framed list-offsets exchange (id 1: the raw exchange
+        -- has no correlation id; ApiVersions was the Conn's request 1, so the follow-up is request 2)
+        let (ra, left) := rawToken (resp.take k)
+        let stream := if k ≥ resp.length then left ++ frame 2 nb else left
+        match runInstL false [116] ⟨"listOffsets", 1, 0, 0, nb⟩ (⟨stream, 2, false⟩, false) with
+        | some (rn, _) =>
+          let cut := k < resp.length
+          let h := match words impl with
+            | [res, next] => res != "panic" && res != "hang" && (if cut then isFailStr res && isFailStr next else res == "ok")
+            | _ => false
+          s!"model={showOutcome ra} {showOutcome rn} holds={if h then 1 else 0}"
+        | none => "bad-op"
+      | _, _, _ => "bad-args"
     | ["c2", t, sa, ha, sb, hb, ks] =>
       match ofHex t, parseInst sa ha, parseInst sb hb, ks.toNat? with
       | some topic, some a, some b, some k =>
@@ -149,6 +201,29 @@ def step (line : String) : String :=
           | _ => false
         s!"model={m} holds={if h then 1 else 0}"
       | _, _ => "bad-args"
+    | ["sm", api, _, ps, ls, ks] =>
+      match ps.toNat?, ls.toNat?, ks.toNat? with
+      | some parts, some len, some k =>
+        let per := if api == "listGroups" then 2 else 1
+        let m := modelStrict parts per (k < len)
+        -- monitor: the call fails, or it returns ALL entries with their true content
+        let h := match words impl with
+          | ["err", _] => true
+          | ["ok", n] => n.toNat? == some (parts * per)
+          | _ => false
+        s!"model={m} holds={if h then 1 else 0}"
+      | _, _, _ => "bad-args"
+    | ["lo3", cp, _, _] =>
+      let m := modelListOffsets3 cp.toInt?
+      let okPart (p : Nat) (s : String) : Bool :=
+        match s.splitOn ":" with
+        | [v, e] => e != "0" || v.toNat? == some (6 + p)
+        | _ => false
+      let h := match words impl with
+        | ["err", _, _, _] => true
+        | ["ok", a, b, c] => okPart 0 a && okPart 1 b && okPart 2 c
+        | _ => false
+      s!"model={m} holds={if h then 1 else 0}"
     | ["tp", sc, ls, ks] =>
       match ls.toNat?, ks.toNat? with
       | some len, some k =>
@@ -163,7 +238,7 @@ def step (line : String) : String :=
     | ["tt", _, _, tr] =>
       match parseTrace tr with
       | some evs =>
-        let m := match TransportConn.firstRejected [] evs 0 with
+        let m := match TransportConn.firstRejected Gen.ConnLegacy.transportFacts [] evs 0 with
           | none => "accept"
           | some i => s!"reject@{i}"
         s!"model={m} holds={if noReuse evs then 1 else 0}"
